@@ -76,9 +76,11 @@ fn check_inner(text: &str, labels: &[B]) -> Option<String> {
 
 pub fn search() -> Option<String> {
     // all 3^k label vectors, k <= 9, over an ASCII and a multi-byte text
-    for base in ["abcdefghij", "aあb漢cいdえeお"] {
+    // ... a text with exactly one 2-byte character (byte length = characters + 1), and one made of the characters the
+    // tokenized format escapes (the written line is compared with the iterator's tokens, escaped)
+    for base in ["abcdefghij", "aあb漢cいdえeお", "Kölner x", "a/ \\b/c/"] {
         let chars: Vec<char> = base.chars().collect();
-        for n in 1..=10usize {
+        for n in 1..=chars.len().min(10) {
             let text: String = chars[..n].iter().collect();
             let k = n - 1;
             let total = 3usize.pow(k as u32);
